@@ -39,6 +39,8 @@ CLAIMED.update({
                 ref='DESIGN.md §3 C14', note=NOTE + '; renderPixel and the sprite scan are replaced by no-ops here (their frame condition is checked in C15)'),
     'C17': dict(text='three inductive pieces: (A) every OAM operation from every state with the corruption window closed changes no OAM byte except the CPU-written byte / the current DMA byte and opens the window only via EnterMode2; (B) window open => LCD on and mode 2, established by New and preserved by every machine cycle and every LCDC write at every point of the frame; (C) every opcode (quick: the 42 pointer-moving/memory ones; thorough: all 501) and interrupt dispatch with every register/SP value leave all 160 OAM bytes and the window state unchanged when the window is closed',
                 ref='DESIGN.md §3 C17', note=NOTE + '; part C uses the flat memory stub (direct CPU writes through the decoder are part A + C06/C07)'),
+    'C15': dict(text='three lemmas that compose to the frame statement for a constant scene: (L1) the mode-2 scan marks exactly the objects whose 8 rows contain the line (any object, line, OAM contents; objects 2c,2c+1 in cycle c); (L2) renderPixel(x,y) for every x,y and every VRAM/OAM/LCDC/scroll/window/palette value equals a reference DMG composition written from Pan Docs, writes only that pixel and leaves timing/scan state alone, with candidate objects in a window of consecutive OAM slots (10 quick; more windows and 20-slot windows thorough); (L3) a machine cycle renders exactly pixels 4(c-20)..+3 of line LY for 20<=c<60',
+                ref='DESIGN.md §3 C15', note=NOTE + '; real image.RGBA code is executed (image package bodies exported)'),
 })
 
 NA_REASON = {
